@@ -339,7 +339,7 @@ theorem memory_inv_execute (cx : Ctx) (ro : Bool) (e : Exec) (fr : Frame) (args 
 theorem memory_inv_resume (fr : Frame) (r : Req) (cr : CallRes) (hm : MemInv fr.mem) :
     MemInv (resume fr r cr).1.mem := by
   cases r with
-  | call k a v i gas ro rs =>
+  | call k a v i gas ro rs io =>
     simp only [resume]
     split
     · exact memInv_of_size hm (memWrite_size _ _ _ _) (memWrite_last _ _ _ _)
